@@ -448,7 +448,7 @@ fn adversarial(r: &mut Report) {
 			continue;
 		}
 		let buf: Vec<u64> = (0..len as u64).collect();
-		for idx in [0u64, 1, len as u64 / 2, (len as u64).saturating_sub(1), len as u64, len as u64 + 1, max, max + 1, u64::MAX] {
+		for idx in [0u64, 1, len as u64 / 2, (len as u64).saturating_sub(1), len as u64, len as u64 + 1, max, max.saturating_add(1), u64::MAX] {
 			let must_err = len as u64 > max - 1 || idx >= len as u64 && !(len == 0 && idx == 0) || idx > max;
 			forms.push((format!("len={len},index={idx}"), json!({"buf": buf, "index": idx}), must_err));
 		}
